@@ -434,7 +434,7 @@ def _strip(ev):
     return keep
 
 
-def feature_pairs(name, programs, workdir, other):
+def feature_pairs(name, programs, workdir, other, mode="run"):
     os.makedirs(workdir, exist_ok=True)
     bin_a = build("ref")
     bin_b = build(other)
@@ -454,8 +454,8 @@ def feature_pairs(name, programs, workdir, other):
     t0 = time.time()
 
     def run_both(f):
-        run_harness(bin_a, f[1], f[2])
-        run_harness(bin_b, f[1], f[3])
+        run_harness(bin_a, f[1], f[2], mode=mode)
+        run_harness(bin_b, f[1], f[3], mode=mode)
         n = 0
         with open(f[2]) as fa, open(f[3]) as fb, open(f[4], "w") as fz:
             la, lb = fa.readlines(), fb.readlines()
